@@ -427,7 +427,9 @@ def inline_new_helpers(tree, ref_funcs):
                     if is_method:
                         m[_simple_params(fn)[0]] = k[1]
                     count += 1
-                    return ast.copy_location(_subst(expr, m), n)
+                    new_e = ast.copy_location(_subst(expr, m), n)
+                    new_e._from_helper = True
+                    return new_e
             return n
 
     def stmt_inline(block, cls):
@@ -515,12 +517,37 @@ def inline_new_helpers(tree, ref_funcs):
             out.append(st)
         return out
 
+    def split_tuples(block):
+        """`a, b = (x, y)` produced by inlining a helper that returned a tuple -> `a = x; b = y` (when independent)"""
+        out = []
+        for st in block:
+            for fld in ("body", "orelse", "finalbody"):
+                if hasattr(st, fld) and isinstance(getattr(st, fld), list) and not isinstance(st, (ast.FunctionDef, ast.AsyncFunctionDef, ast.ClassDef)):
+                    setattr(st, fld, split_tuples(getattr(st, fld)))
+            if isinstance(st, ast.Try):
+                for h in st.handlers:
+                    h.body = split_tuples(h.body)
+            if isinstance(st, ast.Assign) and len(st.targets) == 1 and isinstance(st.targets[0], ast.Tuple) and isinstance(st.value, ast.Tuple) \
+                    and getattr(st.value, "_from_helper", False) and len(st.targets[0].elts) == len(st.value.elts) \
+                    and all(isinstance(t, ast.Name) for t in st.targets[0].elts):
+                tn = {t.id for t in st.targets[0].elts}
+                if not any(isinstance(x, ast.Name) and x.id in tn for v in st.value.elts for x in ast.walk(v)):
+                    for t, v in zip(st.targets[0].elts, st.value.elts):
+                        a = ast.Assign(targets=[t], value=v)
+                        ast.copy_location(a, st)
+                        ast.fix_missing_locations(a)
+                        out.append(a)
+                    continue
+            out.append(st)
+        return out
+
     for q, fn in all_funcs.items():
         if q in info:
             continue
         cls = q.rsplit(".", 1)[0] if "." in q else None
         fn.body[:] = stmt_inline(fn.body, cls)
         ExprInliner(cls).visit(fn)
+        fn.body[:] = split_tuples(fn.body)
     # a helper that is no longer referenced anywhere has been undone completely: drop its definition, so that rules which
     # scan every function of the module see the code where it was before the extraction
     for q, (fn, kind, expr, is_method) in info.items():
